@@ -37,14 +37,19 @@ import (
 type alphaInfo struct {
 	Slots    int      `json:"slots"`
 	Renamed  int      `json:"renamed_objects"`
+	Swapped  int      `json:"operand_swaps"`
 	Files    int      `json:"files_rewritten"`
 	Disabled string   `json:"disabled,omitempty"`
 	Examples []string `json:"examples,omitempty"`
+	swapped  map[string]bool
 }
 
 type alphaEdit struct {
 	off, n int
 	name   string
+	// operand swap: [off, off+n) is X, [yoff, yoff+yn) is Y of a commutative binary expression
+	swap     bool
+	yoff, yn int
 }
 
 //go:embed localnames.json
@@ -235,6 +240,8 @@ func alphaOverlay(repo string, env []string, tags []string, overlay map[string][
 	for k, v := range overlay {
 		merged[k] = v
 	}
+	swappedNodes := map[string]bool{}
+	ai.swapped = swappedNodes
 	for _, p := range pkgs {
 		for i, f := range p.Syntax {
 			var edits []alphaEdit
@@ -268,6 +275,30 @@ func alphaOverlay(repo string, env []string, tags []string, overlay map[string][
 					}
 				}
 			}
+			// operand order of commutative integer operations (see alphaSwaps)
+			finalName := map[*ast.Ident]string{}
+			for _, e := range edits {
+				_ = e
+			}
+			for _, d := range f.Decls {
+				if fd, ok := d.(*ast.FuncDecl); ok {
+					for _, a := range alphaCollect(p, fd) {
+						if want, ok := tbl[a.slot]; ok && want != "" && want != a.name {
+							for _, id := range a.idents {
+								finalName[id] = want
+							}
+						}
+					}
+				}
+			}
+			swaps := alphaSwaps(p, f, finalName)
+			for be := range swaps {
+				xo, xe := p.Fset.Position(be.X.Pos()).Offset, p.Fset.Position(be.X.End()).Offset
+				yo, ye := p.Fset.Position(be.Y.Pos()).Offset, p.Fset.Position(be.Y.End()).Offset
+				edits = append(edits, alphaEdit{off: xo, n: xe - xo, swap: true, yoff: yo, yn: ye - yo})
+				ai.Swapped++
+				swappedNodes[fmt.Sprintf("%s-%d", p.Fset.Position(be.Pos()), p.Fset.Position(be.End()).Offset)] = true
+			}
 			if len(edits) == 0 {
 				continue
 			}
@@ -280,16 +311,7 @@ func alphaOverlay(repo string, env []string, tags []string, overlay map[string][
 					return overlay, ai, nil
 				}
 			}
-			sort.Slice(edits, func(a, b int) bool { return edits[a].off > edits[b].off })
-			out := append([]byte(nil), src...)
-			prev := -1
-			for _, e := range edits {
-				if e.off == prev {
-					continue
-				}
-				prev = e.off
-				out = append(out[:e.off], append([]byte(e.name), out[e.off+e.n:]...)...)
-			}
+			out := alphaRender(src, edits)
 			merged[name] = out
 			ai.Files++
 		}
@@ -302,7 +324,7 @@ func alphaOverlay(repo string, env []string, tags []string, overlay map[string][
 
 // alphaEquivalent walks the source trees and the renamed trees in parallel: same shape, and the
 // identifier-to-object relation is a bijection on module objects and the identity elsewhere.
-func alphaEquivalent(src []*packages.Package, dst map[string]*packages.Package) error {
+func alphaEquivalent(src []*packages.Package, dst map[string]*packages.Package, swapped map[string]bool) error {
 	fwd := map[types.Object]types.Object{}
 	bwd := map[types.Object]types.Object{}
 	for _, p := range src {
@@ -312,12 +334,19 @@ func alphaEquivalent(src []*packages.Package, dst map[string]*packages.Package) 
 		}
 		for i := range p.Syntax {
 			var a, b []*ast.Ident
-			ast.Inspect(p.Syntax[i], func(n ast.Node) bool {
+			var walk func(n ast.Node) bool
+			walk = func(n ast.Node) bool {
 				if id, ok := n.(*ast.Ident); ok {
 					a = append(a, id)
 				}
+				if be, ok := n.(*ast.BinaryExpr); ok && swapped[fmt.Sprintf("%s-%d", p.Fset.Position(be.Pos()), p.Fset.Position(be.End()).Offset)] {
+					ast.Inspect(be.Y, walk) // the renamed tree has the operands in the other order
+					ast.Inspect(be.X, walk)
+					return false
+				}
 				return true
-			})
+			}
+			ast.Inspect(p.Syntax[i], walk)
 			ast.Inspect(q.Syntax[i], func(n ast.Node) bool {
 				if id, ok := n.(*ast.Ident); ok {
 					b = append(b, id)
@@ -360,3 +389,129 @@ func alphaEquivalent(src []*packages.Package, dst map[string]*packages.Package) 
 }
 
 var _ = token.NoPos
+
+// alphaSwaps: operand order of commutative integer operations is not behaviour either (pure
+// operands only: no call, index, dereference or assertion on either side). The canonical order
+// is: a constant operand on the right; two plain names (identifiers, selector chains) in
+// lexical order of their final spelling. Everything else is left as written.
+func alphaSwaps(p *packages.Package, f *ast.File, finalName map[*ast.Ident]string) map[*ast.BinaryExpr]bool {
+	out := map[*ast.BinaryExpr]bool{}
+	comm := map[token.Token]bool{token.EQL: true, token.NEQ: true, token.ADD: true, token.MUL: true, token.AND: true, token.OR: true, token.XOR: true}
+	pure := func(e ast.Expr) bool {
+		ok := true
+		ast.Inspect(e, func(x ast.Node) bool {
+			switch x.(type) {
+			case *ast.CallExpr, *ast.IndexExpr, *ast.SliceExpr, *ast.StarExpr, *ast.TypeAssertExpr, *ast.UnaryExpr, *ast.FuncLit, *ast.CompositeLit:
+				ok = false
+			}
+			return ok
+		})
+		return ok
+	}
+	isInt := func(e ast.Expr) bool {
+		t := p.TypesInfo.TypeOf(e)
+		if t == nil {
+			return false
+		}
+		b, ok := t.Underlying().(*types.Basic)
+		return ok && b.Info()&types.IsInteger != 0
+	}
+	var plain func(e ast.Expr) (string, bool)
+	plain = func(e ast.Expr) (string, bool) {
+		switch x := e.(type) {
+		case *ast.Ident:
+			if n, ok := finalName[x]; ok {
+				return n, true
+			}
+			return x.Name, true
+		case *ast.SelectorExpr:
+			if b, ok := plain(x.X); ok {
+				return b + "." + x.Sel.Name, true
+			}
+		case *ast.ParenExpr:
+			return plain(x.X)
+		}
+		return "", false
+	}
+	ast.Inspect(f, func(n ast.Node) bool {
+		be, ok := n.(*ast.BinaryExpr)
+		if !ok || !comm[be.Op] || !isInt(be.X) || !isInt(be.Y) || !pure(be.X) || !pure(be.Y) {
+			return true
+		}
+		if tv, ok := p.TypesInfo.Types[be]; ok && tv.Value != nil {
+			return true
+		}
+		cx := p.TypesInfo.Types[be.X].Value != nil
+		cy := p.TypesInfo.Types[be.Y].Value != nil
+		switch {
+		case cx && !cy:
+			out[be] = true
+		case !cx && !cy:
+			a, ok1 := plain(be.X)
+			b, ok2 := plain(be.Y)
+			if ok1 && ok2 && b < a {
+				out[be] = true
+			}
+		}
+		return true
+	})
+	return out
+}
+
+// alphaRender applies identifier renames and (possibly nested) operand swaps to src.
+func alphaRender(src []byte, edits []alphaEdit) []byte {
+	end := func(e alphaEdit) int {
+		if e.swap {
+			return e.yoff + e.yn
+		}
+		return e.off + e.n
+	}
+	sort.Slice(edits, func(a, b int) bool {
+		if edits[a].off != edits[b].off {
+			return edits[a].off < edits[b].off
+		}
+		return end(edits[a]) > end(edits[b]) // outer before inner
+	})
+	// drop duplicate identifier edits
+	var es []alphaEdit
+	for i, e := range edits {
+		if i > 0 && !e.swap && !edits[i-1].swap && e.off == edits[i-1].off {
+			continue
+		}
+		es = append(es, e)
+	}
+	var render func(lo, hi int, from int) ([]byte, int)
+	render = func(lo, hi int, from int) ([]byte, int) {
+		var out []byte
+		pos := lo
+		i := from
+		for i < len(es) && es[i].off < hi {
+			e := es[i]
+			if e.off < pos {
+				i++
+				continue
+			}
+			out = append(out, src[pos:e.off]...)
+			if !e.swap {
+				out = append(out, e.name...)
+				pos = e.off + e.n
+				i++
+				continue
+			}
+			x, _ := render(e.off, e.off+e.n, i+1)
+			y, _ := render(e.yoff, e.yoff+e.yn, i+1)
+			out = append(out, y...)
+			out = append(out, src[e.off+e.n:e.yoff]...)
+			out = append(out, x...)
+			pos = e.yoff + e.yn
+			i++
+			for i < len(es) && es[i].off < pos {
+				i++
+			}
+		}
+		out = append(out, src[pos:hi]...)
+		return out, i
+	}
+	out, _ := render(0, len(src), 0)
+	return out
+}
